@@ -6,6 +6,10 @@ from . import values as V
 COLS = 'ABCDEFGH'
 LAYOUT = [('B1.XLSX', 'S1'), ('B1.XLSX', 'S2'), ('B2.XLSX', 'T1')]
 LAYOUT_SAME = [('B1.XLSX', 'S1'), ('B2.XLSX', 'S1'), ('B2.XLSX', 'S2')]   # same sheet title in two books
+# sheet titles whose upper / lower case mappings are not mirror images: the model knows
+# them by their upper-cased form, the file keeps the original spelling
+LAYOUT_CASE = [('B1.XLSX', 'STRASSE'), ('B1.XLSX', '\u039cG'), ('B2.XLSX', 'T1')]
+FILE_TITLES = {'STRASSE': 'Stra\u00dfe', '\u039cG': '\u00b5g'}
 NAME_BOOK = 'B1.XLSX'   # defined names live in (and are used from) the first book
 
 
@@ -284,6 +288,8 @@ def ref_text(host, b, s, ref, qualify):
     if qualify == 'full' or b != hb:
         return "'[%s]%s'!%s" % (b, s, ref)
     if s != hs or qualify == 'sheet':
+        if not s.isascii():
+            return "'%s'!%s" % (s, ref)
         return '%s!%s' % (s, ref)
     return ref
 
@@ -399,8 +405,41 @@ def make(seed, **kw):
         g = Gen(random.Random(seed * 1000003 + k), **kw).build()
         if is_acyclic(g):
             g.seed = seed
+            _settle_blank_branches(g)
             return g
         k += 1
+
+
+def _settle_blank_branches(g):
+    """What an operator makes of a *blank* handed back by IF / IFERROR (Excel keeps it a
+    blank, the library makes it 0 - `=IF(TRUE,A1)&"z"`) is settled by no property: inside
+    another expression a branch that is a bare reference to an unpopulated cell is
+    replaced by a constant.  Workbooks without that pattern are left as generated."""
+    def blank_ref(e):
+        if e[0] == 'ref':
+            return e[1] not in g.cells
+        if e[0] == 'name' and g.names[e[1]][0] == 'ref':
+            return g.names[e[1]][1] not in g.cells
+        return False
+
+    def fix(e, nested):
+        k = e[0]
+        if k == 'op':
+            fix(e[2], True)
+            fix(e[3], True)
+        elif k == 'un':
+            fix(e[2], True)
+        elif k == 'fn':
+            args = e[2]
+            if nested and e[1] in ('IF', 'IFERROR'):
+                for j in ((1, 2) if e[1] == 'IF' else (0,)):
+                    if j < len(args) and blank_ref(args[j]):
+                        args[j] = ['c', V.N(1)]
+            for a in args:
+                fix(a, True)
+    for c in g.cells.values():
+        if 'e' in c:
+            fix(c['e'], False)
 
 
 def needed_from(g, roots):
